@@ -45,7 +45,7 @@ class ExternalCase(Case):
         n = len(self.msgs)
         return {
             "die_after": env.integer("die_after", 0, n + 1),     # n+1: the child is never killed
-            "rc": env.integer("rc", 1, 3),                         # 1: error exit, 2: -9 (killed), 3: other
+            "rc": env.integer("rc", 1, 4),                         # 1: error exit, 2: -9 (SIGKILL), 3: other, 4: -15 (SIGTERM)
             "raise_at": env.integer("raise_at", 0, self.nevals),  # nevals: the callback never raises
             "wfail": env.integer("wfail", 0, 2),
             "rempty": env.integer("rempty", 0, 1),
@@ -55,7 +55,7 @@ class ExternalCase(Case):
         import ropt.plugins.optimizer.external as X
 
         die_after, raise_at = int(inp["die_after"]), int(inp["raise_at"])
-        rc_abn = {1: 1, 2: -9, 3: 3}[int(inp["rc"])]
+        rc_abn = {1: 1, 2: -9, 3: 3, 4: -15}[int(inp["rc"])]
         wfail, rempty = int(inp["wfail"]), int(inp["rempty"])
         msgs = self.msgs
         st = {"exchanged": 0, "pending": False, "sent": 0, "abort_written": False, "polls": 0, "killed": [], "waited": 0,
@@ -202,6 +202,90 @@ class ExternalCase(Case):
         return {}
 
 
+class ChildCase(Case):
+    """The child side of the protocol (_PluginOptimizer.run): it must start the wrapped optimizer from the
+    initial values the parent sends (not from the configuration's), after asking for the configuration."""
+
+    family = "external-process/child"
+
+    def __init__(self, cid, nevals=2):
+        self.id, self.nevals = cid, nevals
+
+    def describe(self):
+        return f"child-side protocol, {self.nevals} evaluations"
+
+    def inputs(self, env):
+        return {"x0": env.integer("x0_tenths", -9, 9)}     # the start point the parent answers with (tenths)
+
+    def run(self, env, inp):
+        import ropt.plugins.optimizer.external as X
+        from .common import make_config
+
+        start = [int(inp["x0"]) / 10.0, 0.25]
+        cfg = make_config({"variables": {"initial_values": [0.7, -0.7]}, "optimizer": {"method": "external/symstub/x"}})
+        pm = ens.stub_optimizer_manager()
+        seen = {}
+
+        def script(opt, x0):
+            seen["x0"] = np.array(x0, dtype=float).tolist()
+            for e in range(self.nevals):
+                seen.setdefault("answers", []).append(opt.callback(np.array([0.1 * e, 0.2]), return_functions=True, return_gradients=False))
+
+        ens.set_script(script)
+        requests = []
+
+        class FakeComm:
+            def __init__(self, *a, **k):
+                self.pending = None
+
+            def __enter__(self):
+                return self
+
+            def __exit__(self, *a):
+                pass
+
+            def write(self, data):
+                requests.append(data)
+                self.pending = data
+                return True
+
+            def read(self):
+                d, self.pending = self.pending, None
+                if d == "config":
+                    return cfg.model_dump(round_trip=True)
+                if d == "initial_values":
+                    return start
+                if isinstance(d, dict) and "evaluation" in d:
+                    return {"functions": [1.5], "gradients": []}
+                return None
+
+        old = (X._JSONPipeCommunicator, X.PluginManager, X.os)
+
+        class FakeOs:
+            def __getattr__(self, k):
+                return getattr(__import__("os"), k)
+
+            def kill(self, pid, sig):
+                return None
+
+        X._JSONPipeCommunicator, X.PluginManager, X.os = FakeComm, (lambda: pm), FakeOs()
+        try:
+            import pathlib
+            rc = X._PluginOptimizer(1).run(pathlib.Path("/nonexistent/a"), pathlib.Path("/nonexistent/b"))
+        finally:
+            X._JSONPipeCommunicator, X.PluginManager, X.os = old
+        return {"rc": rc, "requests": requests, "seen": seen, "start": start}
+
+    def props(self, env, inp, oc):
+        if not oc.ok:
+            return [("no_internal_exception:" + type(oc.exc).__name__, SB(False))]
+        o = oc.value
+        kinds = [r if isinstance(r, str) else next(iter(r)) for r in o["requests"]]
+        return [("child_asks_for_config_then_initial_values_then_evaluations", SB(kinds == ["config", "initial_values"] + ["evaluation"] * self.nevals)),
+                ("optimizer_started_from_the_parents_initial_values", SB(o["seen"].get("x0") == o["start"])),
+                ("normal_exit_code", SB(o["rc"] == 0))]
+
+
 class FlagsCase(Case):
     """The external wrapper must advertise exactly the capabilities of the wrapped in-process optimizer
     (allow_nan, is_parallel): they decide how ropt treats failed evaluations and batches, hence whether the
@@ -251,6 +335,8 @@ def build_cases(tier):
     add(nevals=1)
     add(nevals=2, error_at=1)
     add(nevals=2, error_at=0)
+    k += 1
+    cases.append(ChildCase(f"c20-{k:03d}"))
     for method, par in (("slsqp", False), ("differential_evolution", False), ("differential_evolution", True), ("scipy/nelder-mead", False)):
         k += 1
         cases.append(FlagsCase(f"c20-{k:03d}", method, par))
